@@ -167,4 +167,44 @@ def parseNode (root : Forest) (str : Option (List UInt8)) (sect opt : Nat) (eof 
         else moveInto root r.ctx.forest
       { code := r.code, children := merged, st := r.st, src := r.src }
 
+/-! ### `mpt_parse_accept`, `mpt_node_parse` -/
+
+/-- one letter of a name restriction description: (upper case = section names, flag bits) -/
+def acceptLetter (c : UInt8) : Option (Bool × Nat) :=
+  let upper := 65 ≤ c && c ≤ 90
+  let l := if upper then c + 32 else c
+  let bits : Option Nat :=
+    if l == 102 then some 0x1 else if l == 99 then some 0x2 else if l == 110 then some 0x3
+    else if l == 115 then some 0x4 else if l == 119 then some 0x8 else if l == 101 then some 0x10
+    else if l == 98 then some 0x20 else none
+  bits.map fun b => (upper, b)
+
+/-- the letters up to the first white space: (section flags, option flags), `none` = bad letter -/
+def acceptLoop : List UInt8 → Nat → Nat → Option (Nat × Nat)
+  | [], sect, opt => some (sect, opt)
+  | c :: rest, sect, opt =>
+    if isspace c then some (sect, opt)
+    else match acceptLetter c with
+      | none => none
+      | some (true, b) => acceptLoop rest (sect ||| b) opt
+      | some (false, b) => acceptLoop rest sect (opt ||| b)
+
+/-- `mpt_parse_accept(flags, text)`: `none` = refused -/
+def parseAccept (text : Option (List UInt8)) : Option (Nat × Nat) :=
+  match text with
+  | none => some (0xff, 0xff)
+  | some [] => some (NameFlag.numCont, NameFlag.numCont)
+  | some t => acceptLoop t 0 0
+
+/-- `mpt_node_parse(conf, file, format, limits, log)`: the stdio front end of `mpt_parse_node`.  The
+    children of the target are set aside, the file is parsed into the empty target; on success the old
+    children are dropped (no merge), on failure they are put back.  The logger only receives a message. -/
+def nodeParse (root : Forest) (str : Option (List UInt8)) (limits : Option (List UInt8)) (input : List UInt8) :
+    NodeResult :=
+  match parseAccept (some (limits.getD [110, 115])) with
+  | none => { code := Err.BadArgument.code, children := root, st := {}, src := { rest := input } }
+  | some (sect, opt) =>
+    let r := parseNode [] str sect opt (-2) input
+    if r.code < 0 then { code := r.code, children := root, st := r.st, src := r.src } else r
+
 end Mpt.Parse
